@@ -152,6 +152,8 @@ def main():
                     break
                 except ValueError:
                     pass
+        if not res and not os.path.exists(meta_path):
+            continue          # not confirmed yet
         if res:
             meta['confirmed'] = {
                 'how': 'tools/seedcheck.py in a scratch worktree of /repo HEAD (removed afterwards): demo on the clean tree, '
